@@ -575,6 +575,9 @@ class _StatefulSingleProcessDataLoaderIter(_StatefulBaseDataLoaderIter):
                     )
                     for _ in range(self._num_yielded):
                         next(self)
+                    # next(self) counted the replayed batches a second time
+                    self._num_yielded = state_dict[self._NUM_YIELDED]
+                    self._sampler_iter_yielded = state_dict[_SAMPLER_ITER_YIELDED]
         self._finished = state_dict[_ITERATOR_FINISHED]
 
 
@@ -1080,7 +1083,10 @@ class _StatefulMultiProcessingDataLoaderIter(_StatefulBaseDataLoaderIter):
                         f"naively fast-forwarding your dataset by {self._num_yielded} steps. For more efficient "
                         f"resumes, please implement `state_dict` and `load_state_dict` in your IterableDataset and/or iterator."
                     )
-                    for _ in range(self._num_yielded):
+                    num_to_replay = self._num_yielded
+                    # next(self) counts the replayed batches itself
+                    self._num_yielded = 0
+                    for _ in range(num_to_replay):
                         next(self)
                 # Check if last_yielded_worker_id matches
                 if self._last_yielded_worker_id != next_iter_state[self._SNAPSHOT][self._LAST_YIELDED_WORKER_ID]:
